@@ -156,6 +156,25 @@ fn submit(xs: &mut Xstate, src: &str, style: usize) -> Result<Result<(), Xerr>, 
     })
 }
 
+/// the same source brought in as a file: eval_file, or compile_file followed by run
+fn submit_file(xs: &mut Xstate, src: &str, style: usize) -> Result<Result<(), Xerr>, (String, String)> {
+    use std::sync::atomic::{AtomicU64, Ordering};
+    static N: AtomicU64 = AtomicU64::new(0);
+    let path = format!("/verif/target/scratch/c11-{}-{}.xeh", std::process::id(), N.fetch_add(1, Ordering::Relaxed) % 4);
+    if std::fs::write(&path, src).is_err() {
+        return submit(xs, src, style);
+    }
+    let p = Xstr::from(path.as_str());
+    catch(|| {
+        if style == 0 {
+            xs.eval_file(p)
+        } else {
+            xs.compile_file(p)?;
+            xs.run()
+        }
+    })
+}
+
 const POSITIONS: &[&str] = &["top", "vec", "map-value", "tag-value", "definition", "meta-in-meta", "definition-in-vec", "if-branch", "loop-body", "definition-with-locals"];
 
 impl C11 {
@@ -265,10 +284,29 @@ impl C11 {
                 if !const_vals.is_empty() {
                     p2.push_str(&tail_consts);
                 }
+                // sometimes the interpreter's previous program stopped with a run-time error, and sometimes the sources
+                // come in as files
+                let after_failure = rng.chance(1, 4);
+                let as_file = rng.chance(1, 4);
                 let mut xa = self.boot.clone();
-                let ra = submit(&mut xa, &p_full, style);
                 let mut xb = self.boot.clone();
-                let rb = submit(&mut xb, &p2, style);
+                if after_failure {
+                    for x in [&mut xa, &mut xb] {
+                        let _ = submit(x, "\"earlier\" drop 3 0 do 10 error loop", style);
+                        while x.data_depth() > 0 {
+                            if x.pop_data().is_err() {
+                                break;
+                            }
+                        }
+                        let _ = x.read_stdout();
+                    }
+                    obs.count("pairs_after_a_failed_program");
+                }
+                if as_file {
+                    obs.count("pairs_submitted_as_files");
+                }
+                let ra = if as_file { submit_file(&mut xa, &p_full, style) } else { submit(&mut xa, &p_full, style) };
+                let rb = if as_file { submit_file(&mut xb, &p2, style) } else { submit(&mut xb, &p2, style) };
                 if matches!(ra, Err(_)) || matches!(rb, Err(_)) {
                     obs.skipped += 1;
                     obs.count("skipped:panic(C08)");
@@ -276,6 +314,27 @@ impl C11 {
                 }
                 let oa = observation(&mut xa, &ra).1;
                 let ob = observation(&mut xb, &rb).1;
+                if after_failure || as_file {
+                    // eval is the same as compile followed by run - also for files, also after a failed program
+                    let mut xc = self.boot.clone();
+                    if after_failure {
+                        let _ = submit(&mut xc, "\"earlier\" drop 3 0 do 10 error loop", 1 - style);
+                        while xc.data_depth() > 0 {
+                            if xc.pop_data().is_err() {
+                                break;
+                            }
+                        }
+                        let _ = xc.read_stdout();
+                    }
+                    let rc = if as_file { submit_file(&mut xc, &p_full, 1 - style) } else { submit(&mut xc, &p_full, 1 - style) };
+                    if let Ok(rc) = rc {
+                        let oc = observation(&mut xc, &Ok(rc)).1;
+                        if oc != oa {
+                            return self.fail(obs, idx, format!("eval-differs-from-compile+run:{}{}", if as_file { "file" } else { "text" }, if after_failure { ":after-a-failed-program" } else { "" }), case, format!("[{}]:\n{}\n[{}]:\n{}", if style == 0 { "eval" } else { "compile+run" }, truncate(&oa, 600), if style == 0 { "compile+run" } else { "eval" }, truncate(&oc, 600)));
+                        }
+                        obs.count("pairs_compared_across_submission_styles");
+                    }
+                }
                 // the variable listing of P additionally shows the constants the block defined: compare without them
                 let strip = |o: &str| -> String {
                     let mut s = o.to_string();
